@@ -189,6 +189,18 @@ class Interp:
         return res
 
     def exec_stmt(self, node, st):
+        c = self.specs.get(st.frame.funcqual) if self.specs is not None else None
+        if c is not None and not self.bounded and any(k[0] == "before" for k in c.hints):
+            src = None
+            for (kind, sub), names in c.hints.items():
+                if kind != "before":
+                    continue
+                if src is None:
+                    src = ast.unparse(node) if not isinstance(node, (ast.For, ast.While, ast.If, ast.With, ast.Try)) else \
+                        ast.unparse(node).split("\n")[0]
+                if sub in src:
+                    for hn in names:
+                        self.oblige(st, self.specs.eval_invariant(self, c, hn, st, node, None), "hint", hn, self.where(node))
         m = getattr(self, "s_" + type(node).__name__, None)
         if m is None:
             raise EngineError(f"unsupported statement {type(node).__name__} at {self.where(node)} in {st.frame.funcqual}")
@@ -301,6 +313,8 @@ class Interp:
 
     def assign(self, tgt, v, st):
         if isinstance(tgt, ast.Name):
+            lib.letbind(self, st, v, tgt.id)
+            v = lib.letbind_scalar(self, st, v, tgt.id)
             st.env[tgt.id] = v
             return [(st, None)]
         if isinstance(tgt, (ast.Tuple, ast.List)):
